@@ -105,7 +105,7 @@ class NodeOracle:
             self.cache = []
             return out
         who, x, tags = arrival
-        if k in ("source", "union"):
+        if k in ("source", "union", "plain"):      # plain: a Stream built through the class over an upstream - the pass-through update()
             return [(x, tags)]
         if k == "map":
             return [(_call(self.f, x), tags)]
